@@ -64,6 +64,14 @@ CHECKS = {
   text="Bounded symbolic model checking on the stand-in's lock-step rank simulator: R simulated ranks run the real DDPDistributor/optimizer (threads passing one baton, all_gather as rendezvous with deadlock detection, per-rank logs of process-group creations and collectives); per path (symbolic hyperparameters, values, gradients, presence) every rank's parameters are proved equal to the serial run, all members of a communicator issue the same collectives, all ranks create the same multi-member groups in the same order, each block's state lives on one rank of its group. Counterexamples are replayed with real multi-process gloo under a timeout.",
   note="Trusted: the simulator checks the SPMD contract, not backend timing (equal collective sequences => interleaving independence is the standard SPMD argument); world<=4 (8 thorough), T=2, FP32 communication only (reduced-precision rounding not modelled in this round); as C01 otherwise. Two genuine defects are recorded in known_findings.json (rank starvation; per-owner mesh creation for 1<group<world).",
   ref="DESIGN.md section 3 C06"),
+ "C07": dict(
+  text="Bounded symbolic model checking, differential: each simulated shard rank runs the real FSDPDistributor (HSDP: HSDPDistributor over a simulated replicate x shard mesh with all_gather) inside the real optimizer on its flat shard with hand-built metadata; every element of every shard is proved equal to the serial optimizer run on the documented recovered sub-tensors as independent parameters, and every element of the original parameter is covered exactly once across the shard ranks. Symbolic hyperparameters, values, gradients, presence; shard boundaries enumerated (mid-row, aligned, single element, empty, inner-slice).",
+  note="Trusted: FSDP metadata is a harness input (compile_fsdp_parameter_metadata reads FSDP internals, outside the model); shapes<=12 elements, <=3 shard ranks (4 thorough), replicate 2 (3), T=2; simulator and stubs as C06/C01.",
+  ref="DESIGN.md section 3 C07"),
+ "C08": dict(
+  text="Bounded symbolic model checking, differential: parameters and gradients are simulator DTensors sharded on dim 0 (uneven, ranks without rows), each simulated rank runs the real FullyShardDistributor (HybridShardDistributor over a simulated 2-D mesh) in the real optimizer; every local shard is proved equal to the serial optimizer on that rank's non-empty local tensors, replicas agree, empty shards stay empty; symbolic presence including absent gradients on empty shards.",
+  note="Trusted: DTensor modelled by its local view and dim-0 placement; <=3 shard ranks (4 thorough), replicate 2 (3), T=2; simulator and stubs as C06/C01.",
+  ref="DESIGN.md section 3 C08"),
 }
 NA = {
  "C18": "the compiled step exists only as TorchDynamo/AOTAutograd output traced over real torch; it cannot be executed on symbolic tensors or translated to SMT within reach",
